@@ -113,9 +113,10 @@ func repoGoroutines() map[string]int {
 	return res
 }
 
-// leakCheck waits (up to 2 s) for every repo goroutine not present in `before` to end; returns the survivors.
+// leakCheck waits (up to 8 s, only while something is left) for every repo goroutine not present in `before` to end;
+// returns the survivors.
 func leakCheck(before map[string]int) []string {
-	deadline := time.Now().Add(2 * time.Second)
+	deadline := time.Now().Add(8 * time.Second)
 	for {
 		after := repoGoroutines()
 		var left []string
@@ -505,7 +506,7 @@ func newTunWorld(state int, started bool) *tunWorld {
 }
 
 func (w *tunWorld) settleNotes(expectAtLeast int32) int {
-	deadline := time.Now().Add(200 * time.Millisecond)
+	deadline := time.Now().Add(3 * time.Second) // only waits while the asynchronous notification is still missing
 	for w.cl.notes.Load() < expectAtLeast && time.Now().Before(deadline) {
 		runtime.Gosched()
 	}
@@ -948,7 +949,12 @@ func runTrafficGate(c caseIn) out {
 		}
 		// wait for whichever blocked reporter gets the mutex: it parks at get or finishes (delta 0)
 		cases := 0
+		giveUp := time.Now().Add(waitLong)
 		for cases < 1 {
+			if time.Now().After(giveUp) {
+				hang = true
+				return
+			}
 			progressed := false
 			select {
 			case a := <-cc.arrive:
